@@ -564,6 +564,10 @@ class ConformationContainer:
         new_atom = atom.make_copy()
         self.atoms.append(new_atom)
         new_atom.conformation_container = self
+        # store chain id for bookkeeping (a chain may be missing entirely from
+        # this conformation; the determinant table is written per chain)
+        if new_atom.chain_id not in self.chains:
+            self.chains.append(new_atom.chain_id)
 
     def get_non_hydrogen_atoms(self):
         """Get atoms that are not hydrogens.
